@@ -1,7 +1,7 @@
 (* internal/evaluator/functions.go and object.go (helpers without callbacks) *)
 From Coq Require Import List ZArith Bool.
 From JM Require Import Base.Outcome Base.Bytes Base.Utf8 Num.Dec Json.Value Json.JsonPrint
-  Model.NumberFns Model.Slice.
+  Model.NumberFns Model.Slice Gen.CaseTable.
 Import ListNotations.
 Open Scope Z_scope.
 
@@ -14,16 +14,31 @@ Definition length_ (v : value) : outcome value :=
   end.
 
 Definition all_ascii (s : bytes) : bool := forallb (fun b => b <? 128) s.
+(* unicode.ToLower / unicode.ToUpper: the simple case mappings of the Go toolchain that builds the library, as
+   ranges (Gen/CaseTable.v, regenerated on every run from that toolchain's unicode package) *)
+Fixpoint case_lookup (t : list (Z * Z * Z)) (r : Z) : Z :=
+  match t with
+  | [] => r
+  | (lo, hi, d) :: t' => if (lo <=? r) && (r <=? hi) then r + d else case_lookup t' r
+  end.
+Definition rune_lower (r : Z) : Z := case_lookup case_lower_table r.
+Definition rune_upper (r : Z) : Z := case_lookup case_upper_table r.
+(* the tables are data: tactics never unfold them (vm_compute, which runs the model, does) *)
+Global Opaque rune_lower rune_upper.
+Arguments rune_lower : simpl never.
+Arguments rune_upper : simpl never.
+(* strings.ToLower / strings.ToUpper: an ASCII fast path, else strings.Map over the runes (an invalid byte is
+   U+FFFD and is written back as the three bytes of U+FFFD) *)
 Definition lower (v : value) : outcome value :=
   match v with
   | VStr s => if all_ascii s then Ok (VStr (map (fun b => if (65 <=? b) && (b <=? 90) then b + 32 else b) s))
-              else Unmodelled
+              else Ok (VStr (encode_all (map rune_lower (runes s))))
   | _ => Err EInvalidType
   end.
 Definition upper (v : value) : outcome value :=
   match v with
   | VStr s => if all_ascii s then Ok (VStr (map (fun b => if (97 <=? b) && (b <=? 122) then b - 32 else b) s))
-              else Unmodelled
+              else Ok (VStr (encode_all (map rune_upper (runes s))))
   | _ => Err EInvalidType
   end.
 
